@@ -903,7 +903,9 @@ def oracle_order(w, call, before, after, res):
             p = p or check([(y, x) for y in seq for x in us], 'batch_insert: insertions at smaller indices come first')
             if p:
                 return p
-            seq += us
+            # under the EARLIEST multi-operation exception a group may spill past later insertion points
+            if not (kk < n and sum(len(t) for t in trees) > 1):
+                seq += us
     if k == 'binto':
         for i, us in call['rs']:
             j = py_index(i, n)
@@ -1371,6 +1373,19 @@ def shrink(cirq, vocab, doc, kind):
                 cand = calls[:i] + [c2] + calls[i + 1:]
                 if fails(dict(doc, calls=cand)):
                     calls, changed = cand, True
+    # operands inside the trees of a batch_insert
+    for i in range(len(calls)):
+        if calls[i]['c'] != 'binsert':
+            continue
+        for e in range(len(calls[i]['ins'])):
+            j = len(calls[i]['ins'][e][1]) - 1
+            while j >= 0:
+                ins = [list(x) for x in calls[i]['ins']]
+                ins[e] = [ins[e][0], ins[e][1][:j] + ins[e][1][j + 1:]]
+                cand = calls[:i] + [dict(calls[i], ins=ins)] + calls[i + 1:]
+                if fails(dict(doc, calls=cand)):
+                    calls = cand
+                j -= 1
     # a negative batch_insert index is replaced by the equivalent non-negative one when the failure survives that
     for i, c in enumerate(calls):
         if c['c'] == 'binsert' and any(e[0] < 0 for e in c['ins']):
@@ -1403,8 +1418,19 @@ def shrink(cirq, vocab, doc, kind):
 
 def signature(doc, kind):
     """oracle kind + the non-basic calls the minimised history needs (or the whole call sequence if it needs none)."""
-    special = sorted({c['c'] + ('-negative-index' if c['c'] == 'binsert' and any(e[0] < 0 for e in c['ins']) else '')
-                      for c in doc['calls'] if c['c'] not in BASIC})
+    def kind_of(c):
+        if c['c'] != 'binsert':
+            return c['c']
+        if any(e[0] < 0 for e in c['ins']):
+            return 'binsert-negative-index'
+        sizes = collections.defaultdict(int)
+        for i, tree in c['ins']:
+            sizes[i] += len(tree)
+        idx = sorted(sizes)
+        if any(sizes[i] > 1 for i in idx[:-1]):      # a group of several items in front of another insertion
+            return 'binsert-after-multi-op-group'
+        return 'binsert'
+    special = sorted({kind_of(c) for c in doc['calls'] if c['c'] not in BASIC})
     if special:
         return f'{kind}:' + '+'.join(special)
     return f'{kind}:' + '>'.join(c['c'] + (':' + c['s'] if 's' in c else '') for c in doc['calls'])
